@@ -777,3 +777,229 @@ Example C09_gen_locate_refuses_even_diameter :
                           true "python"%string /\
   ex_run_even = RRaise (EValueError "Feature diameter must be an odd integer. Round up.").
 Proof. split; [reflexivity | exact ex_gen_refuses]. Qed.
+
+(* ====================================================================================
+   ROUTE T FOR THE HEAD OF locate, SECOND PART (added; nothing above is changed; proofs in Proofs/LocateheadGen2.v)
+     numba_engine NA e     e = 'numba', or e = 'auto' with numba available
+     engine_is NA nd e numba   which engine refine_com_arr takes:  numba = false: py_engine NA nd e;
+                           numba = true: numba_engine NA e on a 2-D or 3-D image.  Every engine string the source accepts
+                           falls under it, 'numba' on other than 2 or 3 axes excepted (refine_com_arr raises
+                           NotImplementedError there, the model has no such image)  [C09_engine_is_total]
+     walk_bright im r n s  no window the walk of at most n iterations from the start pixel s evaluates is dark (Model/COM.ref_nonzero)
+     largs_permuted axes V V2   the validated tuples (diameter, separation, smoothing_size) of the second call are
+                           those of the first taken in the order axes
+     pyarg_perm def axes v a scalar argument as it is, a tuple argument taken in the order axes
+   ==================================================================================== *)
+From TP Require Import Proofs.LocateheadGen2.
+Open Scope Z_scope.
+
+(* (29) THE GENERATED WHOLE locate IS THE MODEL, EVERY ENGINE (closes the first gap named at (24)).  Premises of (24);
+   [numba] says which engine the engine string selects (engine_is) and is the l_numba flag of the model; for the numba
+   engine the image has 2 or 3 axes and every diameter is at least 3 (radius >= 1: the premise of C07 (1) / (22) under
+   which kernel model and reference model agree).  With numba the generated kernels (Gen/com_kernels.v through
+   Gen/refine.py_refine_com_arr) return the rows of the python engine when no evaluated window is dark -- this is
+   C07_generated_refine_com_engines_agree -- and the whole call raises ZeroDivisionError exactly when the model's
+   refine_one answers None (locate_agrees: generated raises / model's pipeline raises).
+   STILL MISSING: float images end to end (the refinement / tail models are integer models). *)
+Theorem C09_gen_locate_is_model :
+  forall (A : Type) (F : float_ops A) np_percentile np_exp NUMBA_AVAILABLE sqrtf frame_no dt im0 diameter minmass maxsize
+         separation noise_size smoothing_size threshold percentile topn max_iterations filter_after characterize engine numba,
+  let im := squeeze_image im0 in
+  shape im <> [] -> dtype_ok dt im -> engine_is NUMBA_AVAILABLE (List.length (shape im)) engine numba ->
+  (forall V, locate_args (List.length (shape im)) diameter maxsize separation smoothing_size noise_size = ROk V ->
+             Forall (fun s => (0 <= s)%Q) (a_sep V) /\ (numba = true -> Forall (fun d => 3 <= d) (a_diameter V))) ->
+  locate_agrees
+    (py_locate F np_percentile np_exp NUMBA_AVAILABLE sqrtf frame_no (ImZ dt im0) diameter minmass maxsize separation noise_size
+               smoothing_size threshold false percentile topn false max_iterations None filter_after characterize engine)
+    (locate_py (fun l => np_percentile l percentile) sqrtf numba im0 diameter minmass maxsize separation noise_size
+               smoothing_size topn max_iterations characterize).
+Proof. exact @gen_locate_is_model_engines. Qed.
+Print Assumptions C09_gen_locate_is_model.
+
+Theorem C09_engine_is_total : forall NUMBA_AVAILABLE nd engine,
+  engine = "python"%string \/ engine = "auto"%string \/ (engine = "numba"%string /\ (nd = 2 \/ nd = 3)%nat) ->
+  exists numba, engine_is NUMBA_AVAILABLE nd engine numba.
+Proof. exact engine_is_total. Qed.
+Print Assumptions C09_engine_is_total.
+
+(* (29b) the step of (29) that is new: refine_com as generated, called the way locate calls it with the numba engine (raw image
+   im, image imc of the same shape, 2 or 3 axes, radius >= 1 a tuple, coords the integer array of maxima, every start
+   window inside the image): if every walk is bright, the frame of the python engine (rows of the reference model, one
+   per maximum, in order); otherwise ZeroDivisionError. *)
+Theorem C09_gen_refine_com_numba_as_locate_calls_it : forall NUMBA_AVAILABLE (im imc : image) radius coords max_iterations engine characterize,
+  shape imc = shape im -> List.length radius = List.length (shape im) ->
+  (List.length (shape im) = 2 \/ List.length (shape im) = 3)%nat ->
+  Forall (fun r => 1 <= r) radius ->
+  Forall (fun p => List.length p = List.length (shape im) /\ window_inside radius (shape imc) p) coords ->
+  numba_engine NUMBA_AVAILABLE engine ->
+  of_refine (Gen.refine.py_refine_com NUMBA_AVAILABLE (zarr_of im) (zarr_of imc) (PyRefine.RTuple radius)
+               (PyRefine.CArray (np_rows_as_array imc coords)) max_iterations engine
+               Gen.refine.py_refine_com_default_shift_thresh characterize Gen.refine.py_refine_com_default_pos_columns) =
+  if forallb (walk_bright imc radius max_iterations) coords
+  then ROk (PyRefine.mkFrame
+              (COMRefine.com_columns (PyRefine.default_pos_columns (Z.of_nat (List.length (shape imc))))
+                                     (Z.of_nat (List.length (shape imc))) characterize (isotropic radius))
+              None
+              (COMRefine.refine_rows (pix imc) (pix im) radius (shape imc) LocatePipe.shift_thresh max_iterations characterize coords))
+  else RRaise (EUnmodelled "ZeroDivisionError").
+Proof. exact refine_com_frame_numba. Qed.
+Print Assumptions C09_gen_refine_com_numba_as_locate_calls_it.
+
+(* (30) theorem (11) for the GENERATED refine_com (python engine), called the way locate calls it: on
+   np.transpose(image, axes), the radius and every start pixel taken in the order axes, it returns the frame whose rows
+   are the rows (COMRefine.ref_row) of the permuted outputs, in the same order.  ANY integer image. *)
+Theorem C09_gen_refine_com_axes_permuted : forall NUMBA_AVAILABLE axes (im1 im2 : image) radius coords max_iterations engine characterize,
+  Permutation axes (seq 0 (List.length (shape im1))) -> axes_permuted axes im1 im2 ->
+  List.length radius = List.length (shape im1) ->
+  Forall (fun p => List.length p = List.length (shape im1)) coords ->
+  py_engine NUMBA_AVAILABLE (List.length (shape im1)) engine ->
+  exists f1 f2 outs1 outs2,
+    of_refine (Gen.refine.py_refine_com NUMBA_AVAILABLE (zarr_of im1) (zarr_of im1) (PyRefine.RTuple radius)
+                 (PyRefine.CArray (np_rows_as_array im1 coords)) max_iterations engine
+                 Gen.refine.py_refine_com_default_shift_thresh characterize Gen.refine.py_refine_com_default_pos_columns) = ROk f1 /\
+    of_refine (Gen.refine.py_refine_com NUMBA_AVAILABLE (zarr_of im2) (zarr_of im2) (PyRefine.RTuple (zperm axes radius))
+                 (PyRefine.CArray (np_rows_as_array im2 (map (zperm axes) coords))) max_iterations engine
+                 Gen.refine.py_refine_com_default_shift_thresh characterize Gen.refine.py_refine_com_default_pos_columns) = ROk f2 /\
+    PyRefine.of_rows f1 = map COMRefine.ref_row outs1 /\ PyRefine.of_rows f2 = map COMRefine.ref_row outs2 /\
+    Forall2 (row_permuted axes) outs1 outs2.
+Proof. exact gen_refine_com_axes. Qed.
+Print Assumptions C09_gen_refine_com_axes_permuted.
+
+(* (31) theorem (12) for the GENERATED head (the any-axis-order companion of (26)): raw2 is raw1 with its axes in the order
+   axes (after squeezing), located with every per-axis argument in that order (largs_permuted; (31b) shows that permuting
+   tuple arguments and keeping scalar ones achieves it), non-negative integer image, python engine: both runs of the
+   generated head succeed, the rows of the two frames refine_com returns are the rows of locate_discrete on im1 resp. of
+   locate_discrete with permuted parameters on im2, and these correspond one to one (as multisets: np.where order
+   changes), every row permuted.  No premise on the image content. *)
+Theorem C09_gen_head_axes_permuted :
+  forall (A : Type) (F : float_ops A) (np_percentile : list Z -> Q -> Q) np_exp NUMBA_AVAILABLE percentile,
+    (forall l l', Permutation l l' -> np_percentile l percentile = np_percentile l' percentile) ->
+  forall axes dt raw1 raw2 diameter separation noise_size smoothing_size diameter2 separation2 noise_size2 smoothing_size2
+         minmass maxsize threshold topn max_iterations filter_after characterize engine V V2,
+  let im1 := squeeze_image raw1 in
+  let im2 := squeeze_image raw2 in
+  let P := lp_of V max_iterations characterize in
+  locate_args (List.length (shape im1)) diameter maxsize separation smoothing_size noise_size = ROk V ->
+  locate_args (List.length (shape im2)) diameter2 maxsize separation2 smoothing_size2 noise_size2 = ROk V2 ->
+  largs_permuted axes V V2 ->
+  Forall (fun s => (0 <= s)%Q) (a_sep V) ->
+  py_engine NUMBA_AVAILABLE (List.length (shape im1)) engine ->
+  arr_nonneg (data im1) = true -> arr_nonneg (data im2) = true ->
+  Permutation axes (seq 0 (List.length (shape im1))) -> axes_permuted axes im1 im2 ->
+  Forall (fun s => 1 <= s) (sizes_of im1 (lp_sep P)) ->
+  exists r1 r2 outs1 outs2 rows,
+    py_locate_head F np_percentile np_exp NUMBA_AVAILABLE (ImZ dt raw1) diameter minmass maxsize separation noise_size smoothing_size
+                   threshold false percentile topn false max_iterations None filter_after characterize engine = ROk r1 /\
+    py_locate_head F np_percentile np_exp NUMBA_AVAILABLE (ImZ dt raw2) diameter2 minmass maxsize separation2 noise_size2 smoothing_size2
+                   threshold false percentile topn false max_iterations None filter_after characterize engine = ROk r2 /\
+    PyRefine.of_rows (head_frame r1) = map COMRefine.ref_row outs1 /\
+    PyRefine.of_rows (head_frame r2) = map COMRefine.ref_row outs2 /\
+    outs1 = locate_discrete (fun l => np_percentile l percentile) P im1 /\
+    outs2 = locate_discrete (fun l => np_percentile l percentile) (lp_perm axes P) im2 /\
+    Permutation outs2 rows /\ Forall2 (row_permuted axes) outs1 rows.
+Proof. exact @gen_head_axes. Qed.
+Print Assumptions C09_gen_head_axes_permuted.
+
+(* (31b) locate's validation on arguments taken in the order axes (tuples permuted, scalars kept) succeeds whenever the
+   original validation does, and its validated tuples are the original ones permuted *)
+Theorem C09_locate_args_permuted : forall axes n diameter maxsize separation smoothing_size noise_size V,
+  Permutation axes (seq 0 n) ->
+  locate_args n diameter maxsize separation smoothing_size noise_size = ROk V ->
+  exists V2, locate_args n (pyarg_perm 0 axes diameter) maxsize (option_map (pyarg_perm 0%Q axes) separation)
+                         (option_map (pyarg_perm 0 axes) smoothing_size) (pyarg_perm 0%Q axes noise_size) = ROk V2 /\
+             largs_permuted axes V V2 /\ a_noise V2 = qperm axes (a_noise V).
+Proof. exact locate_args_permuted. Qed.
+Print Assumptions C09_locate_args_permuted.
+
+(* (31c) with them the parameters of the discrete model are the permuted parameters (margin included) *)
+Theorem C09_lp_of_permuted : forall axes V V2 max_iterations characterize n,
+  largs_permuted axes V V2 -> Permutation axes (seq 0 n) ->
+  List.length (a_diameter V) = n -> List.length (a_sep V) = n -> List.length (a_smooth V) = n ->
+  lp_of V2 max_iterations characterize = lp_perm axes (lp_of V max_iterations characterize).
+Proof. exact lp_of_permuted. Qed.
+Print Assumptions C09_lp_of_permuted.
+
+(* (32) theorem (14) for the generated code, PARTIAL: the GENERATED head followed by the tail MODEL of (13)-(16)
+   (Model/LocateWhole.tail_out: where_close, minmass / maxsize, topn on refine's rows).  Premises of (31) and those of (14)
+   (maxsize only with an isotropic diameter, no_tie on refine's table of the first image): both runs of the generated head
+   succeed and the final tables tail_out computes from the rows of the two frames correspond one to one, every row
+   permuted.
+   MISSING for the full statement (Gen/tail.py_locate_tail in place of tail_out): (29) ties the generated tail to
+   Model/LocatePipe.locate = Model/LocateTail.tail on LocatePipe.row_of rows (np.sqrt of size^2 through the parameter
+   sqrtf, mass / scale_factor, ep columns), (14) is about tail_out on outputs (size^2 against maxsize^2, no scale
+   factor); the two tail models are proved to keep the same rows only on to_row rows with scale factor 1 ((16c)); a
+   row-by-row bridge LocateTail.tail (row_of) ~ tail_out for maxsize = None is not proved. *)
+Theorem C09_gen_head_then_tail_axes_permuted_partial :
+  forall (A : Type) (F : float_ops A) (np_percentile : list Z -> Q -> Q) np_exp NUMBA_AVAILABLE percentile,
+    (forall l l', Permutation l l' -> np_percentile l percentile = np_percentile l' percentile) ->
+  forall axes dt raw1 raw2 diameter separation noise_size smoothing_size diameter2 separation2 noise_size2 smoothing_size2
+         minmass maxsize threshold topn max_iterations filter_after characterize engine V V2 T,
+  let im1 := squeeze_image raw1 in
+  let im2 := squeeze_image raw2 in
+  let P := lp_of V max_iterations characterize in
+  locate_args (List.length (shape im1)) diameter maxsize separation smoothing_size noise_size = ROk V ->
+  locate_args (List.length (shape im2)) diameter2 maxsize separation2 smoothing_size2 noise_size2 = ROk V2 ->
+  largs_permuted axes V V2 ->
+  Forall (fun s => (0 <= s)%Q) (a_sep V) ->
+  py_engine NUMBA_AVAILABLE (List.length (shape im1)) engine ->
+  arr_nonneg (data im1) = true -> arr_nonneg (data im2) = true ->
+  Permutation axes (seq 0 (List.length (shape im1))) -> axes_permuted axes im1 im2 ->
+  Forall (fun s => 1 <= s) (sizes_of im1 (lp_sep P)) ->
+  t_maxsize T = None \/ isotropic (lp_radius P) = true ->
+  no_tie (lp_sep P) T (locate_discrete (fun l => np_percentile l percentile) P im1) = true ->
+  exists r1 r2 outs1 outs2 rows,
+    py_locate_head F np_percentile np_exp NUMBA_AVAILABLE (ImZ dt raw1) diameter minmass maxsize separation noise_size smoothing_size
+                   threshold false percentile topn false max_iterations None filter_after characterize engine = ROk r1 /\
+    py_locate_head F np_percentile np_exp NUMBA_AVAILABLE (ImZ dt raw2) diameter2 minmass maxsize separation2 noise_size2 smoothing_size2
+                   threshold false percentile topn false max_iterations None filter_after characterize engine = ROk r2 /\
+    PyRefine.of_rows (head_frame r1) = map COMRefine.ref_row outs1 /\
+    PyRefine.of_rows (head_frame r2) = map COMRefine.ref_row outs2 /\
+    Permutation (tail_out (qperm axes (lp_sep P)) T outs2) rows /\
+    Forall2 (row_permuted axes) (tail_out (lp_sep P) T outs1) rows.
+Proof. exact @gen_head_tail_axes_partial. Qed.
+Print Assumptions C09_gen_head_then_tail_axes_permuted_partial.
+
+(* Non-vacuity of (29) with numba = true: the 14x15 uint8 canvas, diameter 3, engine='numba' meets every premise; the
+   generated locate with the kernels EXECUTED returns the table of the python engine (one row). *)
+Example C09_gen_numba_premises_satisfiable :
+  shape (squeeze_image ex_im1) <> [] /\
+  dtype_ok (mkDT false 8) (squeeze_image ex_im1) /\
+  engine_is false (List.length (shape (squeeze_image ex_im1))) "numba"%string true /\
+  (forall V, locate_args (List.length (shape (squeeze_image ex_im1))) (PyPreproc.PyScalar 3) None None None
+                         (PyPreproc.PyScalar 1%Q) = ROk V ->
+             Forall (fun s => (0 <= s)%Q) (a_sep V) /\ (true = true -> Forall (fun d => 3 <= d) (a_diameter V))).
+Proof. exact ex_numba_premises. Qed.
+
+Example C09_gen_locate_numba_runs :
+  ex_run_numba = py_locate fops2 (fun _ _ => 1 # 2) (fun _ => 0%Q) false (fun q => q) None (ImZ (mkDT false 8) ex_im1)
+                           (PyPreproc.PyScalar 3) None None None (PyPreproc.PyScalar 1%Q) None None false 64%Q None false 3 None None true
+                           "numba"%string /\
+  ex_run_numba = ex_run /\ exists d, ex_run = ROk d /\ List.length (df_lines d) = 1%nat.
+Proof. split; [reflexivity | exact ex_numba_runs]. Qed.
+
+(* Non-vacuity of (31): the 14x15 canvas and np.transpose(.., (1, 0)) of it, diameter (3, 5) resp. (5, 3): every premise
+   holds; executed, the generated head finds one feature each, position and the two per-axis sizes swapped. *)
+Example C09_gen_head_axes_premises_satisfiable :
+  exists V V2,
+    locate_args (List.length (shape (squeeze_image ex_im1))) (PyPreproc.PySeq [3; 5]) None None None (PyPreproc.PyScalar 1%Q) = ROk V /\
+    locate_args (List.length (shape (squeeze_image ex_im1T))) (PyPreproc.PySeq [5; 3]) None None None (PyPreproc.PyScalar 1%Q) = ROk V2 /\
+    largs_permuted ex_axes V V2 /\ Forall (fun s => (0 <= s)%Q) (a_sep V) /\
+    py_engine false (List.length (shape (squeeze_image ex_im1))) "python"%string /\
+    arr_nonneg (data (squeeze_image ex_im1)) = true /\ arr_nonneg (data (squeeze_image ex_im1T)) = true /\
+    Permutation ex_axes (seq 0 (List.length (shape (squeeze_image ex_im1)))) /\
+    axes_permuted ex_axes (squeeze_image ex_im1) (squeeze_image ex_im1T) /\
+    Forall (fun s => 1 <= s) (sizes_of (squeeze_image ex_im1) (lp_sep (lp_of V 3 true))).
+Proof. exact ex_axes_head_premises. Qed.
+
+Example C09_gen_head_axes_instance :
+  ex_im1T = transpose_axes [1; 0]%nat ex_im1 /\
+  match py_locate_head fops2 (fun _ _ => 1 # 2) (fun _ => 0%Q) false (ImZ (mkDT false 8) ex_im1)
+                       (PyPreproc.PySeq [3; 5]) None None None (PyPreproc.PyScalar 1%Q) None None false 64%Q None false 3 None None true "python"%string,
+        py_locate_head fops2 (fun _ _ => 1 # 2) (fun _ => 0%Q) false (ImZ (mkDT false 8) ex_im1T)
+                       (PyPreproc.PySeq [5; 3]) None None None (PyPreproc.PyScalar 1%Q) None None false 64%Q None false 3 None None true "python"%string with
+  | ROk r1, ROk r2 =>
+      PyRefine.of_rows (head_frame r1) = [COMRefine.ref_row (mkOut [234 # 39; 273 # 39]%Q 39 (Some ([28 # 39; 44 # 39]%Q, 9, 39)))] /\
+      PyRefine.of_rows (head_frame r2) = [COMRefine.ref_row (mkOut [273 # 39; 234 # 39]%Q 39 (Some ([44 # 39; 28 # 39]%Q, 9, 39)))]
+  | _, _ => False
+  end.
+Proof. split; [reflexivity | exact ex_axes_head_runs]. Qed.
